@@ -237,12 +237,17 @@ def splitImpl (impl : String) : Option (String × String) :=
 
 def implList (s : String) : List String := if s == "-" then [] else s.splitOn ";"
 
-/-- C01 verdict on one rendering's matches: every one must be `Genuine` -/
+/-- C01 verdict on one rendering's matches: every one must be `GenuineK`. A failing match of a pattern under the
+guard of a known finding is classified `KNOWN[...]`. -/
 def judgeC01Api (p : Pat) (seen : List Event) (ms : List String) : Option String :=
   ms.findSome? fun s =>
     match parseMatch seen s with
     | none => some s!"JUDGE C01 match {s} is not built from input events"
-    | some m => if genuineImpl p seen m then none else some s!"JUDGE C01 match {s} is not a genuine occurrence"
+    | some m =>
+      if genuineImpl p seen m then none
+      else if p.lateSelfRef then some s!"KNOWN[C01-late-selfref-all] match {s} violates a self-referencing `all` filter that is never evaluated"
+      else if p.laterRefsKleene then some s!"KNOWN[C01-enum-later-ref] match {s}: a later filter / .not clause was evaluated against the last accumulated event"
+      else some s!"JUDGE C01 match {s} is not a genuine occurrence"
 
 def judgeC01Vpl (p : Pat) (seen : List Event) (ms : List String) : Option String :=
   if !capsDetermineStack p then none else
@@ -284,7 +289,7 @@ def step (st : St) (line : String) : St × String :=
     match parseEvent (words op), impl?.bind splitImpl with
     | some e, some (ia, iv) =>
       let p := st.pat
-      if !p.inFragmentK || (st.prop == "C02" && !p.allFree) then (st, "SKIP") else
+      if !p.modelled || (st.prop == "C02" && !p.allFree) then (st, "SKIP") else
       let seenA := st.seenA ++ [e]
       let (engA, msA) := stepEngineK p st.cfg st.engA e
       let r := routed p e
